@@ -277,7 +277,8 @@ impl EqualityConstraint {
     /// // Normalizes to: -2x + y - 3z = 4
     /// ```
     pub fn new(coefficients: Vec<f64>, rhs: f64) -> EqualityConstraint {
-        match float_lt(rhs, 0.0) {
+        // exact comparison: a tolerant one leaves a tiny negative right-hand side negative
+        match rhs < 0.0 {
             true => EqualityConstraint {
                 coefficients: coefficients.iter().map(|c| c * -1.0).collect(),
                 rhs: -rhs,
